@@ -33,7 +33,7 @@ ASSUMPTIONS = [
     "inside validate_headers / expected_http_body_size / send, parse_content_length and parse_transfer_encoding are replaced by their own contracts (deterministic named predicates CLacc / TEc / TEp); int() of a non-digit accepted value (the trailing-newline class KF-C01-5) is unconstrained",
     "'%x' % n is an uninterpreted function of n (chunk-size formatting)",
     "header sets made invalid by an addon after validation are outside the send contracts (they assume a field list with the shape validate_headers guarantees: one unrelated field plus at most one framing field)",
-    "field-list contracts are proved for <= 3 fields (validate_headers) resp. <= 1 field in the quick tier / <= 2 in the thorough tier (expected_http_body_size); field names and values are fully symbolic",
+    "field-list contracts are proved for <= 2 fields in the quick tier / <= 3 in the thorough tier (validate_headers) resp. <= 1 / <= 2 (expected_http_body_size); field names and values are fully symbolic",
     "Layer.handle_event, Http1Connection.mark_done are replaced by ghost trace items in the send contracts (mark_done has its own contract in C02)",
 ]
 
@@ -285,8 +285,23 @@ def check_exchange(b, ex, raws, label, inp, resp_ambiguous=None, classes=frozens
             fail("c01.upstream.head_unambiguous", f"forwarded head needs leniencies {sorted(u.flags)}: {u!r}", [KF_CRLF])
         if list(u.fields) != list(s.fields):
             fail("c01.upstream.fields", f"reader fields {u.fields!r} vs recorded {list(s.fields)!r}", [KF_CRLF])
-    # ---- ambiguous requests are rejected, not forwarded
     verdicts = [R.request_verdict(x) for x in raws]
+    # ---- what mitmproxy recorded is what the client sent (streams the reference reader accepts without any leniency, no addon
+    #      edits): same number of requests in the same order, same method / fields / body.  Not literally demanded by the
+    #      statement (which compares forwarded octets with recorded flows) but it is the other half of "no request desync".
+    if inp.get("addon") == "none" and all(v[0] == "ok" for v in verdicts) and inp.get("case", "A")[0] in "AB":
+        sent = R.read_stream(b"".join(raws), True, False)["messages"]
+        seen = [f for f in flows if "requestheaders" in f.hooks]
+        closes_early = any(b"connection: close" in _head_of(x).lower() or _head_of(x).split(b"\r\n")[0].endswith(b" HTTP/1.0") for x in raws[:-1])
+        if len(seen) != len(sent) and not closes_early:
+            fail("c01.recorded_matches_client_stream.number", f"client sent {len(sent)} requests, {len(seen)} flows were created")
+        for q, f in zip(sent, seen):
+            hs = f.snaps["requestheaders"]
+            if (q.method, list(q.fields)) != (hs.method, list(hs.fields)):
+                fail("c01.recorded_matches_client_stream.head", f"client sent {q!r}, recorded {hs!r}")
+            if "request" in f.snaps and (f.snaps["request"].content or b"") != q.body:
+                fail("c01.recorded_matches_client_stream.body", f"client sent body {q.body!r}, recorded {f.snaps['request'].content!r}")
+    # ---- ambiguous requests are rejected, not forwarded
     first_bad = next((i for i, v in enumerate(verdicts) if v[0] in ("ambiguous", "malformed")), None)
     if first_bad is not None and verdicts[first_bad][0] == "ambiguous":
         why = verdicts[first_bad][1]
@@ -494,6 +509,27 @@ NAME_POOL = [b"Transfer-Encoding", b"content-length", b"X-A", b"bad name"]
 VALUE_POOL = [b"chunked", b"gzip", b"3", b"GZIP ,\tChunked", b"x", b"03"]
 
 
+def targeted(base, variants):
+    """candidate assignments: `base` with each of the `variants` applied"""
+    return [dict(base, **v) for v in variants]
+
+
+TE_, CL_ = b"Transfer-Encoding", b"content-length"
+VALIDATE_CANDS = targeted(
+    dict(n0=b"X-A", v0=b"y", n1=b"X-B", v1=b"z", n2=b"X-C", v2=b"w", version=b"HTTP/1.1", status=200),
+    [dict(), dict(n0=TE_, v0=b"chunked"), dict(n0=TE_, v0=b"chunked", version=b"HTTP/1.0"), dict(n0=TE_, v0=b"gzip"), dict(n0=TE_, v0=b"GZIP ,\tChunked"),
+     dict(n0=TE_, v0=b"chunked", status=204), dict(n0=TE_, v0=b"chunked", status=100), dict(n0=TE_, v0=b"xchunked"), dict(n0=CL_, v0=b"3"), dict(n0=CL_, v0=b"03"),
+     dict(n0=CL_, v0=b"x"), dict(n0=TE_, v0=b"chunked", n1=CL_, v1=b"3"), dict(n0=CL_, v0=b"3", n1=TE_, v1=b"chunked"), dict(n0=TE_, v0=b"chunked", n1=TE_, v1=b"chunked"),
+     dict(n0=CL_, v0=b"3", n1=CL_, v1=b"3"), dict(n0=b"bad name"), dict(n1=b"bad name"), dict(n1=TE_, v1=b"chunked"), dict(n1=CL_, v1=b"3"), dict(n2=TE_, v2=b"chunked"),
+     dict(n0=TE_, v0=b"chunked", n2=CL_, v2=b"3"), dict(n0=TE_, v0=b"gzip", version=b"HTTP/1.0")])
+EBS_CANDS = targeted(
+    dict(n0=b"X-A", v0=b"y", n1=b"X-B", v1=b"z", http11=True, method=b"GET", status=200),
+    [dict(), dict(method=b"HEAD"), dict(method=b"head"), dict(method=b"CONNECT"), dict(status=204), dict(status=304), dict(status=100), dict(status=199),
+     dict(n0=TE_, v0=b"chunked"), dict(n0=TE_, v0=b"gzip"), dict(n0=TE_, v0=b"chunked", method=b"HEAD"), dict(n0=TE_, v0=b"chunked", status=304),
+     dict(n0=CL_, v0=b"3"), dict(n0=CL_, v0=b"3", method=b"HEAD"), dict(n0=CL_, v0=b"3", status=304), dict(n0=CL_, v0=b"3", method=b"head"),
+     dict(n1=TE_, v1=b"chunked"), dict(n1=CL_, v1=b"3"), dict(http11=False), dict(n0=CL_, v0=b"0")])
+
+
 def _regex_opts():
     from pyvc.libx_http1 import te_preimage
     return dict(exact_regex=True, resub_literals=TE_LITERALS,
@@ -514,10 +550,11 @@ def in_re(vc, s, pyregex):
 
 
 def str_to_int(vc, s):
+    """decimal value of a digit string (SMT-LIB str.to_int: -1 for anything else)"""
     if vc.mode == "native":
-        return int(s)
+        return int(s) if len(s) > 0 and all(c in (b"0123456789" if isinstance(s, bytes) else "0123456789") for c in s) else -1
     import z3
-    return SInt(z3.StrToInt(s.t))
+    return SInt(z3.StrToInt(lift(s).t))
 
 
 # RFC 9110 §8.6: Content-Length = 1*DIGIT ; mitmproxy may be stricter (no leading zeros) but never laxer
@@ -579,7 +616,7 @@ def s_parse_te(vc):
 
 TOKEN_B = rb"[!#$%&'*+\-.^_`|~0-9a-zA-Z]+"
 import os as _os
-NMAX = int(_os.environ.get("C01_NMAX", "3"))
+NMAX = int(_os.environ.get("C01_NMAX", "3" if _os.environ.get("PYVC_TIER") == "thorough" else "2"))
 
 
 def ci_pattern(lit: bytes) -> bytes:
@@ -707,9 +744,7 @@ def name_check(vc, name):
     return SBool(lib.uf("re_match", z3.StringSort(), z3.StringSort(), z3.BoolSort())(key, lift(name).t))
 
 
-@scenario("validate_headers", functions=[V + "validate_headers"],
-          candidates=cands({"n0": NAME_POOL, "v0": VALUE_POOL, "n1": NAME_POOL, "v1": VALUE_POOL[:3], "n2": NAME_POOL[:3], "v2": VALUE_POOL[:3],
-                            "version": [b"HTTP/1.1", b"HTTP/1.0"], "status": [200, 204]}, limit=60))
+@scenario("validate_headers", functions=[V + "validate_headers"], candidates=VALIDATE_CANDS)
 def s_validate(vc):
     kind = vc.case("kind", ["request", "response"])
     n = vc.case("n", list(range(NMAX + 1)))
@@ -815,9 +850,7 @@ def upper_(vc, s):
 EBS = RD + "expected_http_body_size"
 
 
-@scenario("expected_http_body_size", functions=[EBS],
-          candidates=cands({"n0": NAME_POOL[:3], "v0": VALUE_POOL[:4], "n1": NAME_POOL[:3], "v1": VALUE_POOL[:3], "http11": [True, False],
-                            "method": [b"GET", b"HEAD", b"head", b"CONNECT"], "status": [200, 204, 304, 100]}, limit=60))
+@scenario("expected_http_body_size", functions=[EBS], candidates=EBS_CANDS)
 def s_ebs(vc):
     kind = vc.case("kind", ["request", "response"])
     n = vc.case("n", list(range(int(_os.environ.get("C01_EBS_N", "2" if _os.environ.get("PYVC_TIER") == "thorough" else "1")) + 1)))
@@ -829,15 +862,15 @@ def s_ebs(vc):
     status = vc.sym_int("status", lo=100, hi=999) if kind == "response" else None
     is_request = kind == "request"
     valid, n_te, n_cl, te_val, cl_val, te_c, te_p = spec_valid_fields(vc, is_request, names, vals, http11, status)
+    m = method_str(vc, method)
+    facts = [upper_(vc, lit) == lit for lit in ("HEAD", "CONNECT")]          # str.upper() of an upper-case literal
+    facts.append(upper_(vc, upper_(vc, m)) == upper_(vc, m))                 # str.upper() is idempotent
     for v in vals:
         c, p = te_class(vc, v, abstract=True)
-        vc.assume(Implies(Or(c, p), And(is_ascii(vc, v), len_(v) > 0)))   # the named pattern sets contain non-empty ASCII strings only
+        facts.append(Implies(Or(c, p), And(is_ascii(vc, v), len_(v) > 0)))   # the named pattern sets contain non-empty ASCII strings only (te_classes.substring_lemma)
+        facts.append(Implies(cl_accepted(vc, v), is_ascii(vc, v)))           # parse_content_length's contract: accepted values are ASCII
+    vc.assume(And(*facts))
     summarise_value_parsers(vc)
-    for lit in ("HEAD", "CONNECT"):
-        vc.assume(upper_(vc, lit) == lit)   # str.upper() of an upper-case literal (the engine's upper() is uninterpreted on symbolic text)
-    vc.assume(upper_(vc, upper_(vc, method_str(vc, method))) == upper_(vc, method_str(vc, method)))   # str.upper() is idempotent
-    for v in vals:
-        vc.assume(Implies(cl_accepted(vc, v), is_ascii(vc, v)))   # parse_content_length's contract: accepted values are ASCII
     from props.httpstream import mk_request
     if is_request:
         req = mk_message(vc, "request", names, vals, version, method=method)
@@ -847,36 +880,27 @@ def s_ebs(vc):
         resp = mk_message(vc, "response", names, vals, version, status)
     out = vc.call(EBS, req, resp)
     vc.ensure("raises_only_value_error", out.ok or issubclass(out.raised_type(), ValueError))
-    if not vc.branch(valid):
-        return
-    vc.ensure("valid_head.no_exception", out.ok)
-    if not out.ok:
-        return
-    r = out.result
-    # RFC 9112 §6.3
-    m = method_str(vc, method)
+    # RFC 9112 §6.3 as a function of the validated head
     lenient_method = And(Or(upper_(vc, m) == "HEAD", upper_(vc, m) == "CONNECT"), m != "HEAD", m != "CONNECT")   # KF-C01-6
-    if not is_request:
+    if is_request:
+        rule12 = False
+    else:
         rule1 = Or(m == "HEAD", And(status >= 100, status <= 199), status == 204, status == 304)
         rule2 = And(status >= 200, status <= 299, m == "CONNECT")
-        if vc.branch(Or(rule1, rule2)):
-            vc.ensure("rule1_2.no_body", And(not isnone(r), r == 0) if not isnone(r) else False)
-            return
-    if vc.branch(n_te >= 1):
-        if vc.branch(te_c):
-            vc.ensure_kf("rule3.chunked", isnone(r), "KF-C01-6", lenient_method)
-        else:
-            vc.ensure_kf("rule3.response_until_close", And(not isnone(r), r == -1) if not isnone(r) else False, "KF-C01-6", lenient_method)
+        rule12 = Or(rule1, rule2)
+    digits = in_re(vc, cl_val, CL_RFC_B) if n else True
+    spec_chunked = And(Not(rule12), n_te >= 1, te_c)
+    spec_len = If(rule12, 0, If(n_te >= 1, -1, If(n_cl >= 1, str_to_int(vc, cl_val), 0 if is_request else -1)))
+    in_scope = And(valid, Implies(n_cl >= 1, digits))   # (accepted non-digit Content-Length values: the trailing-newline class of KF-C01-5)
+    if not out.ok:
+        vc.ensure("valid_head.no_exception", Not(valid))
         return
-    if vc.branch(n_cl >= 1):
-        if not vc.branch(in_re(vc, cl_val, CL_RFC_B)):
-            return  # accepted non-digit values: the trailing-newline class of KF-C01-5 (parse_content_length's contract)
-        vc.ensure_kf("rule5.content_length", And(not isnone(r), r == str_to_int(vc, cl_val)) if not isnone(r) else False, "KF-C01-6", lenient_method)
-        return
-    if is_request:
-        vc.ensure("rule6.request_without_body", And(not isnone(r), r == 0) if not isnone(r) else False)
+    r = out.result
+    if isnone(r):
+        vc.ensure_kf("none_only_for_chunked", Implies(in_scope, spec_chunked), "KF-C01-6", lenient_method)
     else:
-        vc.ensure_kf("rule8.response_until_close", And(not isnone(r), r == -1) if not isnone(r) else False, "KF-C01-6", lenient_method)
+        vc.ensure_kf("int_only_when_not_chunked", Implies(in_scope, Not(spec_chunked)), "KF-C01-6", lenient_method)
+        vc.ensure_kf("length_per_rfc9112_6_3", Implies(in_scope, r == spec_len), "KF-C01-6", lenient_method)
 
 
 # ---------------------------------------------------------------------------------------------------------------------
@@ -1021,7 +1045,7 @@ def is_ghost(c, tag):
 
 SEND_CANDS = cands({"te": [b"chunked", b"gzip, chunked", b"gzip", b"identity"], "xn": [b"X-A"], "xv": [b"y"], "clv": [b"3", b"0"], "method": [b"GET", b"HEAD", b"head", b"POST"],
                     "scheme": [b"http"], "authority": [b"example.com", b""], "path": [b"/p"], "data": [b"", b"abc"], "status": [200, 304, 204], "reason": [b"OK"],
-                    "end_stream": [False]}, limit=80)
+                    "end_stream": [False]}, limit=30)
 
 
 @scenario("http1client.send", functions=[H1C + ".send", "mitmproxy.net.http.http1.assemble:assemble_request_head",
